@@ -501,6 +501,12 @@ func enumPathsOpt(f *ssa.Function, limit int, cutLoops bool) ([]upath, bool) {
 								if _, isMI := rv.(*ssa.MakeInterface); isMI {
 									known, knownVal = true, b.Op == token.NEQ
 								}
+								// a package-level error value (io.EOF, context.DeadlineExceeded, ErrFull, ...): sentinel errors are not nil
+								if u, isU := rv.(*ssa.UnOp); isU && u.Op == token.MUL {
+									if _, isG := u.X.(*ssa.Global); isG && rv.Type().String() == "error" {
+										known, knownVal = true, b.Op == token.NEQ
+									}
+								}
 							}
 						}
 					}
